@@ -51,8 +51,9 @@ def main():
             "evidence_file": f"/verif/evidence/{cid}.json",
             "replay_cmd_template": f"/venv/bin/python -m vcheck {cid} --replay {{path}}",
             "engine": "vcheck",
-            "level_claimed": {"category": mod.LEVEL, "text": LEVEL_TEXT[mod.LEVEL] + ". " + mod.RULE[:400],
-                              "design_ref": f"DESIGN.md section 5, {cid}"},
+            "level_claimed": {"category": mod.LEVEL, "text": LEVEL_TEXT[mod.LEVEL] + ". Workload and what counts as a judged execution: " + mod.RULE
+                              + " Deciding monitors that must be reached (else INCONCLUSIVE): " + ", ".join(getattr(mod, "MUST_REACH", ())) + ".",
+                              "design_ref": f"DESIGN.md sections 5 ({cid}: plan) and 10 ({cid}: as built)"},
             "level_note": "trusted base: the oracles under vcheck/oracle (bit/interval algebra, reader, name tables; self-tested against brute force at every start), the generators, CPython; assumptions: " + "; ".join(getattr(mod, "ASSUMPTIONS", [])),
             "technique": TECH[cid],
         })
